@@ -37,7 +37,7 @@ TAU = 3e-9
 
 
 def cases(tier, seed):
-    reps = 10 if tier == "quick" else 300
+    reps = 10 if tier == "quick" else 2000
     out = []
     for kind in ("positive", "complex"):
         for nv in range(1, 6):
